@@ -24,8 +24,11 @@
 
 namespace galois {
 namespace substrate {
-size_t allocSize() { return 512; }
-void* allocPages(unsigned num, bool) { return std::calloc(num, 512); }
+#ifndef VF_PTS_BYTES
+#define VF_PTS_BYTES 512
+#endif
+size_t allocSize() { return VF_PTS_BYTES; }
+void* allocPages(unsigned num, bool) { return std::calloc(num, VF_PTS_BYTES); }
 void freePages(void* p, unsigned) { std::free(p); }
 
 thread_local ThreadPool::per_signal ThreadPool::my_box;
